@@ -16,9 +16,9 @@ pub const OPS: usize = 4;
 
 pub fn plan(tier: &str, seed: u64) -> Vec<Batch> {
     let n = match tier {
-        "thorough" => 160,
+        "thorough" => 600,
         "dev" => 1,
-        _ => 14,
+        _ => 60,
     };
     let mut v = Vec::new();
     for uni in [UniCfg::k(), UniCfg::e()] {
